@@ -30,6 +30,8 @@ def parse_jobs(fn, entry, callees=(), loops=1, est=60, c08_wip=OPEN, c19_wip=OPE
     rep = R_STUBS + ([] if arena_bodies else A_STUBS) + list(callees)
     xd = ['CQV_PT_ARENA_BODIES=1'] if arena_bodies else []
     base = dict(entry=entry, enforce=fn, replace=rep, min_loop_obligations=loops, est_s=est, tier=tier, **P)
+    if arena_bodies:
+        base['object_bits'] = 12
     base.update(kw)
     a = dict(name='c08_' + fn, prop='C08', harness='harness/C08/ptypes.c',
              defines=['CQV_ALLOC_NEVER_FAILS=1', 'CQV_FN_%s=1' % fn] + xd, wip=c08_wip, **base)
